@@ -261,6 +261,15 @@ func (c *Canon) s(v ssa.Value) string {
 	case *ssa.Field:
 		return c.S(x.X) + "." + fieldName(x.X.Type(), x.Field)
 	case *ssa.IndexAddr:
+		// O[i] of a projection O[j] = S[j].f (for all j) is S[i].f
+		if mk, ok := x.X.(*ssa.MakeSlice); ok && !c.busy[mk] {
+			c.busy[mk] = true
+			src, field, isProj := c.sliceProjection(mk)
+			delete(c.busy, mk)
+			if isProj {
+				return c.S(src) + "[" + c.idxOf(src, x.Index) + "]." + field
+			}
+		}
 		return c.S(x.X) + "[" + c.idxOf(x.X, x.Index) + "]"
 	case *ssa.Index:
 		return c.S(x.X) + "[" + c.idxOf(x.X, x.Index) + "]"
@@ -462,6 +471,12 @@ func isRangeIndex(v ssa.Value) bool {
 
 func (c *Canon) call(cc *ssa.CallCommon, v ssa.Value) string {
 	name := shortCallee(cc)
+	// a step new to the tree that is the identity unless a new option is set (defaults.go) is named by its operand
+	if cv, ok := v.(*ssa.Call); ok && cv.Parent() != nil && !cc.IsInvoke() && len(cc.Args) >= 2 {
+		if inner, ok := identityAtDefault(c.W, cv.Parent(), cv); ok {
+			return c.S(inner)
+		}
+	}
 	if b, ok := cc.Value.(*ssa.Builtin); ok {
 		switch b.Name() {
 		case "len", "cap":
@@ -500,4 +515,84 @@ func (c *Canon) call(cc *ssa.CallCommon, v ssa.Value) string {
 		args = append(args, c.S(a))
 	}
 	return name + "(" + strings.Join(args, ",") + ")"
+}
+
+// sliceProjection: mk is make([]T, len(S)) filled by exactly one store O[j] = S[j].f in the body of `for j := range S`:
+// O is the column f of S. Returns S and the field name.
+func (c *Canon) sliceProjection(mk *ssa.MakeSlice) (ssa.Value, string, bool) {
+	var store *ssa.Store
+	var at *ssa.IndexAddr
+	for _, ref := range *mk.Referrers() {
+		switch x := ref.(type) {
+		case *ssa.IndexAddr:
+			for _, rr := range *x.Referrers() {
+				if st, ok := rr.(*ssa.Store); ok && st.Addr == ssa.Value(x) {
+					if store != nil {
+						return nil, "", false
+					}
+					store, at = st, x
+				}
+			}
+		case *ssa.Call:
+			// len(O) is harmless; append / copy would change the contents
+			if b, ok := x.Call.Value.(*ssa.Builtin); !ok || (b.Name() != "len" && b.Name() != "cap") {
+				return nil, "", false
+			}
+		case *ssa.Slice, *ssa.Store, *ssa.MakeClosure:
+			return nil, "", false
+		}
+	}
+	if store == nil || !isRangeIndex(at.Index) {
+		return nil, "", false
+	}
+	// the stored value: field f of S[j] with the same j
+	var elem *ssa.IndexAddr
+	field := ""
+	switch v := store.Val.(type) {
+	case *ssa.Field:
+		if ld, ok := v.X.(*ssa.UnOp); ok && ld.Op == token.MUL {
+			elem, _ = ld.X.(*ssa.IndexAddr)
+			field = fieldName(v.X.Type(), v.Field)
+		}
+	case *ssa.UnOp:
+		if fa, ok := v.X.(*ssa.FieldAddr); ok && v.Op == token.MUL {
+			field = fieldName(fa.X.Type(), fa.Field)
+			elem, _ = fa.X.(*ssa.IndexAddr)
+			if a, isA := fa.X.(*ssa.Alloc); isA {
+				if sv := singleStore(a); sv != nil {
+					if ld, ok := sv.(*ssa.UnOp); ok && ld.Op == token.MUL {
+						elem, _ = ld.X.(*ssa.IndexAddr)
+					}
+				}
+			}
+		}
+	}
+	if elem == nil || elem.Index != at.Index || field == "" {
+		return nil, "", false
+	}
+	src := elem.X
+	// the loop ranges over S and the made slice is as long as S
+	inc, ok := at.Index.(*ssa.BinOp)
+	if !ok {
+		return nil, "", false
+	}
+	bounded := false
+	for _, ref := range *inc.Referrers() {
+		if cmp, ok := ref.(*ssa.BinOp); ok && cmp.Op == token.LSS && cmp.X == ssa.Value(inc) {
+			if lc, ok := cmp.Y.(*ssa.Call); ok {
+				if b, ok := lc.Call.Value.(*ssa.Builtin); ok && b.Name() == "len" && c.S(lc.Call.Args[0]) == c.S(src) {
+					bounded = true
+				}
+			}
+		}
+	}
+	if !bounded || c.S(mk.Len) != "len("+c.S(src)+")" {
+		return nil, "", false
+	}
+	// stored on every iteration: the store sits in the loop body's first block
+	ph, _ := inc.X.(*ssa.Phi)
+	if ph == nil || store.Block().Idom() != ph.Block() {
+		return nil, "", false
+	}
+	return src, field, true
 }
